@@ -8,7 +8,7 @@ LEVEL = "proof"
 KEYS = ["DictList." + k for k in (
     "has_id _check get_by_id index __contains__ __getitem__ append insert pop remove __delitem__ __setitem__ "
     "_generate_index __setstate__ reverse sort __copy__ _replace_on_id extend _extend_nocheck __iadd__ add __add__ "
-    "union __init__ __isub__ __sub__").split()]
+    "union __init__ __isub__ __sub__ __getattr__ __getslice__ __delslice__").split()]
 
 # which native operations exercise a function under contract (for the fallback search on a failed obligation)
 OPS = {
